@@ -43,6 +43,30 @@ def provenance(ctx, rep, clause):
                 continue  # charge state is carried over unchanged, it is not a modification
             k += 1
             val = n.args[-1] if n.args else None
+            if n.func.attr == 'add_intervals' and n.args:
+                # an interval is written back as Interval(start, end, ambiguous, <None | [Mod(round(...), 1)]>)
+                iv = cn.resolve(n.args[0])
+                mods_args = [c.args[3] for c in ast.walk(iv) if isinstance(c, ast.Call) and
+                             norm_stmt(c.func) == 'Interval' and len(c.args) >= 4]
+                mods_args += [kw.value for c in ast.walk(iv) if isinstance(c, ast.Call) and norm_stmt(c.func) == 'Interval'
+                              for kw in c.keywords if kw.arg == 'mods']
+                val = None
+                if len(mods_args) == 1:
+                    # every non-None binding of the modification list is [Mod(round(...), 1)]
+                    cands = [mods_args[0]]
+                    if isinstance(mods_args[0], ast.Name):
+                        cands = [a.value for a in ast.walk(f.node) if isinstance(a, ast.Assign) and
+                                 norm_stmt(a.targets[0]) == mods_args[0].id and
+                                 not (isinstance(a.value, ast.Constant) and a.value.value is None)]
+                    rounds = []
+                    for cnd in cands:
+                        if isinstance(cnd, ast.List) and len(cnd.elts) == 1 and isinstance(cnd.elts[0], ast.Call) and \
+                                norm_stmt(cnd.elts[0].func) == 'Mod' and cnd.elts[0].args:
+                            rounds.append(cnd.elts[0].args[0])
+                        else:
+                            rounds.append(None)
+                    if rounds and all(r is not None for r in rounds):
+                        val = rounds[0]
             ok = isinstance(val, ast.Call) and isinstance(val.func, ast.Name) and val.func.id == 'round'
             ob(rep, 'PROV', FQ, f'`{norm_stmt(n)[:70]}` writes a rounded number', ok, 'round(<mass>, precision)',
                f'`{norm_stmt(n)[:70]}` writes something that is not the result of round(...): the output may '
